@@ -335,7 +335,11 @@ func c15HandlerActor() []core.Scenario {
 		select {
 		case <-got:
 		case <-time.After(20 * time.Second):
-			c.Violationf("after-close:spawned-actor-dead", rep, "an actor spawned from a closed parent does not work")
+			if quiet, _ := core.QuietNow(); quiet {
+				c.Violationf("after-close:spawned-actor-dead", rep, "an actor spawned from a closed parent does not work")
+			} else {
+				c.Inconclusive("spawned-actor probe still in progress after 20 s")
+			}
 		}
 		child.Close()
 	}))
